@@ -198,6 +198,10 @@ def check_dispatch(ck: Check):
     ck.extra["dispatch_cases"] = len(cases)
 
 
+SIG_HB_FATAL = ("group_coordinator.py:__coordination_routine: one Heartbeat reply with a non-retriable error ends the "
+                "heartbeat task for good (auto-commit off)")
+
+
 def monitor_convergence(ck, sc, r, quiet):
     bad = 0
 
@@ -206,7 +210,10 @@ def monitor_convergence(ck, sc, r, quiet):
         bad += 1
         rp = {"scenario": sc, "what": what}
         rp.update(extra or {})
-        ck.violation(f"{what} (scenario {sc['id']})", rp, signature=f"sim:{what[:70]}")
+        sig = f"sim:{what[:70]}"
+        if sc.get("family") == "heartbeat-fatal-once" and "heartbeating" in what:
+            sig = SIG_HB_FATAL
+        ck.violation(f"{what} (scenario {sc['id']})", rp, signature=sig)
     g = r["groups"].get("g")
     if not g:
         return 0
@@ -376,6 +383,13 @@ def run(ck: Check):
                             "max_vtime": 600.0, "family": "static-membership"})
                 nstatic += 1
     ck.extra["static_membership_runs"] = nstatic
+    # ONE Heartbeat reply carries a non-retriable error (GROUP_AUTHORIZATION_FAILED: the ACL flapped), then the
+    # environment is quiet: with the auto-commit timer running the member finds its way back, without it see K5
+    for j, (nth, ac) in enumerate([(2, True), (3, True), (2, False), (4, False)]):
+        sc = base(f"hbfatal-{j}", {}, auto_commit=ac)
+        sc["api_faults"] = [{"client": "c0", "api": "Heartbeat", "nth": nth, "kind": "error", "code": 30}]
+        sc["family"] = "heartbeat-fatal-once"
+        scs.append(sc)
     # pattern subscription: a topic matching the members' pattern is created while the group is stable / rebalancing;
     # after the next metadata refresh the group must rebalance once and own the new topic's partitions too
     for j, at in enumerate([0.6, 1.0, 1.45, 1.55, 1.7, 2.0, 2.6, 3.2]):
